@@ -95,6 +95,10 @@ impl TwoFloat {
     /// assert!((b - c).abs() < 1e-10);
     /// ```
     pub fn asinh(self) -> Self {
+        if self.is_sign_negative() {
+            // odd symmetry: x + sqrt(x^2 + 1) cancels catastrophically for negative x
+            return -(-self).asinh();
+        }
         (self + (self * self + 1.0).sqrt()).ln()
     }
 
